@@ -36,6 +36,8 @@ EvalRecipe(s, rc, v, env) ==
     [] rc.r = "alt"   -> EvalRecipe(s, rc.alts[v[2] + 1], v, env)
     [] rc.r = "bind"  -> EvalRecipe(s, rc.inner, Eval(s, rc.over, env), env)
     [] rc.r \in {"junk", "leak"} -> EvalRecipe(s, rc.then, v, env)
+    [] rc.r = "memo"  -> IF s.memos[rc.m].f = "const" THEN v
+                         ELSE F2(s.memos[rc.m].f, v, Eval(s, s.memos[rc.m].over, env))
 Eval(s, n, env) ==
   LET d == s.def[n] IN
   CASE d.k = "var"    -> env[n]
@@ -161,6 +163,75 @@ OnlyNeeded(s, coneBegin) ==
   (Ok(s) /\ s.status = "handlers") =>
      LET coneEnd == ConeOf(s, ObservedNodes(s, LinkedObs(s)), {}) IN
      \A i \in 1..Len(s.inv) : s.inv[i].n \in coneBegin \cup coneEnd
+
+---------------------------------------------------------------------------
+(* C19: the height a node needs, from definitions only (exact for bind-free graphs)         *)
+RECURSIVE RefHeight(_, _)
+RefHeight(s, n) ==
+  LET d == s.def[n]
+      kids == CASE d.k \in {"var", "const"} -> {}
+                [] d.k = "main" -> {d.lc} \cup (IF s.rhs[d.lc] = 0 THEN {} ELSE {s.rhs[d.lc]})
+                [] d.k = "expert" -> {s.edges[n][i].child : i \in 1..Len(s.edges[n])}
+                [] OTHER -> SeqSet(d.ins)
+      below == {RefHeight(s, c) : c \in kids} \cup (IF s.scope[n] = 0 THEN {0} ELSE {RefHeight(s, s.scope[n])})
+  IN 1 + (CHOOSE h \in below : \A g \in below : h >= g)
+BindFree(s) == \A n \in 1..s.n : s.def[n].k \notin {"lhs", "main", "expert"}
+\* a stabilise is refused for height iff some node it has to link needs more than the limit
+HeightExact(s) ==
+  BindFree(s) =>
+    /\ (s.panic = "panic:height") =>
+          \E n \in ConeOf(s, ObservedNodes(s, LiveObs(s) \cup LinkedObs(s)), {}) : RefHeight(s, n) > s.ahhMax
+    /\ (Ok(s) /\ s.status = "idle") =>
+          \A n \in ConeOf(s, ObservedNodes(s, LinkedObs(s)), {}) : RefHeight(s, n) <= s.ahhMax /\ s.height[n] = RefHeight(s, n)
+
+---------------------------------------------------------------------------
+(* C12: ownership.  Strong references implied by a state; Retained = reachable from the roots  *)
+(* (Rc semantics; the only cycle, var node <-> Var, is a root until break_rc_cycle).           *)
+ValRefs(v) == IF Tag(v) = "n" THEN {v[2]} ELSE {}
+\* nodes a bind closure names: it owns clones of their handles
+RECURSIVE RecipeRefs(_)
+RecipeRefs(rc) ==
+  CASE rc.r = "pick" -> SeqSet(rc.alts)
+    [] rc.r \in {"map", "chain"} -> {rc.over}
+    [] rc.r = "alt" -> UNION {RecipeRefs(rc.alts[i]) : i \in 1..Len(rc.alts)}
+    [] rc.r = "bind" -> {rc.over} \cup RecipeRefs(rc.inner)
+    [] rc.r = "junk" -> RecipeRefs(rc.pre) \cup RecipeRefs(rc.then)
+    [] rc.r = "leak" -> RecipeRefs(rc.then)
+    [] OTHER -> {}
+StrongOut(s, n) ==
+  LET d == s.def[n]
+      kids == CASE d.k \in {"var", "const"} -> {}
+                [] d.k = "lhs" -> {d.ins[1]} \cup (IF s.rhs[n] = 0 THEN {} ELSE {s.rhs[n]}) \cup RecipeRefs(d.recipe)
+                [] d.k = "main" -> {d.lc, s.def[d.lc].ins[1]} \cup (IF s.rhs[d.lc] = 0 THEN {} ELSE {s.rhs[d.lc]})
+                                   \cup RecipeRefs(s.def[d.lc].recipe)
+                [] d.k = "expert" -> {s.edges[n][i].child : i \in 1..Len(s.edges[n])}
+                [] OTHER -> SeqSet(d.ins)
+      ctlrefs == IF d.k = "map" /\ "ctl" \in DOMAIN d /\ d.ctl.mode = "sum" THEN SeqSet(d.ctl.ins) ELSE {}
+  IN kids \cup ctlrefs \cup ValRefs(s.val[n]) \cup ValRefs(s.cell[n]) \cup ValRefs(s.pend[n])
+           \cup (IF d.k = "const" THEN ValRefs(d.init) ELSE {})
+Roots(s) ==
+  s.handles
+  \cup {n \in 1..s.n : s.def[n].k = "var" /\ n \notin s.broken}
+  \cup {s.onode[o] : o \in {x \in 1..s.no : s.oclones[x] > 0 \/ x \in s.allObs}}
+  \cup {n \in 1..s.n : InHeap(s, n)}
+  \cup SeqSet(s.leaked)
+  \cup {s.memos[i].over : i \in {j \in 1..Len(s.memos) : s.memos[j].over # 0}}
+RECURSIVE Reach(_, _, _)
+Reach(s, todo, acc) ==
+  IF todo = {} THEN acc ELSE
+  LET n == CHOOSE x \in todo : TRUE
+      new == StrongOut(s, n) \ (acc \cup {n})
+  IN Reach(s, (todo \ {n}) \cup new, acc \cup {n})
+Retained(s) == Reach(s, Roots(s), {})
+Released(s) == (1..s.n) \ Retained(s)
+\* after a public call returns, dangling weak references are exactly the released nodes
+Settle(s) == IF Ok(s) THEN [s EXCEPT !.rel = @ \cup Released(s)] ELSE s
+HoldFor(a, r) ==
+  IF ~Ok(r) THEN r ELSE
+  CASE a.a = "var" -> HoldVar(r, r.n)
+    [] a.a \in {"const", "map", "map2", "fold", "mapref", "mwo", "zip", "dependon", "bind"} -> Hold(r, r.n)
+    [] a.a \in {"xjoin", "xsum"} -> Hold(r, r.n - 1)
+    [] OTHER -> r
 
 ---------------------------------------------------------------------------
 (* C09: per-subscription automaton (Fresh -> Live -> Dead) driven by reference facts.  *)
